@@ -45,6 +45,7 @@ package pub
 //@ ensures err == nil ==> t != nil
 
 //@ func (*pub.baseActor).PostInboxScheme
+//@ params b, c, w, r, scheme
 //@ [C11] requires b != nil && b.delegate != nil && w != nil && r != nil && r.URL != nil && r.Body != nil
 //@ [C09] requires unlocked: held == emp
 //@ [C09] ensures unlocked: held == emp
@@ -60,7 +61,7 @@ package pub
 //@ [C10] ensures error_unwritten: result0 && result1 != nil ==> libWrote == 0
 //@ [C10] ensures one_status: result0 && result1 == nil ==> wrote == 1
 //@ [C10] ensures disabled_405: r.Method == "POST" && isASMedia(old(hdr)[r.Header]["Content-Type"]) && !b.enableFederatedProtocol ==> result0 && result1 == nil && status == 405
-//@ modifies $db, authed, cleared, typeUnknown, lacksId, lastBlocked, reqMissing, wrote, libWrote, status, bodyWrites, hdr, bufstr, H:net/url.URL.Host, H:net/url.URL.Scheme, A:Int, A:Iface
+//@ modifies $db, authed, cleared, typeUnknown, lacksId, lastBlocked, reqMissing, wrote, libWrote, status, sentHdr, bodyWrites, hdr, bufstr, H:net/url.URL.Host, H:net/url.URL.Scheme, A:Int, A:Iface
 //@ [C10] at call streams.ToType#1: ghost typeUnknown = isUnmatched($res1)
 //@ [C10] at call pub.Activity.GetJSONLDId#1: ghost lacksId = $res0 == nil || $res0.Get() == nil
 //@ [C10] at call pub.DelegateActor.PostInbox#1: ghost reqMissing = $res0 == pub.ErrObjectRequired || $res0 == pub.ErrTargetRequired
@@ -72,6 +73,7 @@ package pub
 //@ [C10] ensures library_status: libWrote == 1 ==> status == 405 || status == 400 || status == 403 || status == 200
 
 //@ func (*pub.baseActor).PostInbox
+//@ params b, c, w, r
 //@ [C11] requires b != nil && b.delegate != nil && w != nil && r != nil && r.URL != nil && r.Body != nil
 //@ [C09] requires unlocked: held == emp
 //@ [C09] ensures unlocked: held == emp
@@ -84,9 +86,10 @@ package pub
 //@ [C10] ensures not_handled: !result0 ==> wrote == 0 && result1 == nil
 //@ [C10] ensures error_unwritten: result0 && result1 != nil ==> libWrote == 0
 //@ [C10] ensures one_status: result0 && result1 == nil ==> wrote == 1
-//@ modifies $db, authed, cleared, typeUnknown, lacksId, lastBlocked, reqMissing, wrote, libWrote, status, bodyWrites, hdr, bufstr, H:net/url.URL.Host, H:net/url.URL.Scheme, A:Int, A:Iface
+//@ modifies $db, authed, cleared, typeUnknown, lacksId, lastBlocked, reqMissing, wrote, libWrote, status, sentHdr, bodyWrites, hdr, bufstr, H:net/url.URL.Host, H:net/url.URL.Scheme, A:Int, A:Iface
 
 //@ func (*pub.baseActor).PostOutboxScheme
+//@ params b, c, w, r, scheme
 //@ [C11] requires b != nil && b.delegate != nil && w != nil && r != nil && r.URL != nil && r.Body != nil
 //@ [C09] requires unlocked: held == emp
 //@ [C09] ensures unlocked: held == emp
@@ -101,16 +104,17 @@ package pub
 //@ [C10] ensures error_unwritten: result0 && result1 != nil ==> libWrote == 0
 //@ [C10] ensures one_status: result0 && result1 == nil ==> wrote == 1
 //@ [C10] ensures disabled_405: r.Method == "POST" && isASMedia(old(hdr)[r.Header]["Content-Type"]) && !b.enableSocialProtocol ==> result0 && result1 == nil && status == 405
-//@ modifies $db, authed, cleared, typeUnknown, lacksId, lastBlocked, reqMissing, newId, wrote, libWrote, status, bodyWrites, hdr, bufstr, H:net/url.URL.Host, H:net/url.URL.Scheme, A:Int, A:Iface
+//@ modifies $db, authed, cleared, typeUnknown, lacksId, lastBlocked, reqMissing, newId, wrote, libWrote, status, sentHdr, bodyWrites, hdr, bufstr, H:net/url.URL.Host, H:net/url.URL.Scheme, A:Int, A:Iface
 //@ [C10] at call streams.ToType#1: ghost typeUnknown = isUnmatched($res1)
 //@ [C10] at call (*pub.baseActor).deliver#1: ghost reqMissing = $res1 == pub.ErrObjectRequired || $res1 == pub.ErrTargetRequired
 //@ [C10] at call (*pub.baseActor).deliver#1: ghost newId = $res0.GetJSONLDId().Get()
 //@ [C10] ensures unknown_type_400: typeUnknown ==> result0 && result1 == nil && status == 400
 //@ [C10] ensures required_missing_400: reqMissing ==> result0 && result1 == nil && status == 400
-//@ [C10] ensures created_201: result0 && result1 == nil && libWrote == 1 && b.enableSocialProtocol && !typeUnknown && !reqMissing ==> status == 201 && hdr[whdr(w)]["Location"] == str(newId)
+//@ [C10] ensures created_201: result0 && result1 == nil && libWrote == 1 && b.enableSocialProtocol && !typeUnknown && !reqMissing ==> status == 201 && sentHdr["Location"] == str(newId)
 //@ [C10] ensures library_status: libWrote == 1 ==> status == 405 || status == 400 || status == 201
 
 //@ func (*pub.baseActor).PostOutbox
+//@ params b, c, w, r
 //@ [C11] requires b != nil && b.delegate != nil && w != nil && r != nil && r.URL != nil && r.Body != nil
 //@ [C09] requires unlocked: held == emp
 //@ [C09] ensures unlocked: held == emp
@@ -122,9 +126,10 @@ package pub
 //@ [C10] ensures not_handled: !result0 ==> wrote == 0 && result1 == nil
 //@ [C10] ensures error_unwritten: result0 && result1 != nil ==> libWrote == 0
 //@ [C10] ensures one_status: result0 && result1 == nil ==> wrote == 1
-//@ modifies $db, authed, cleared, typeUnknown, lacksId, lastBlocked, reqMissing, newId, wrote, libWrote, status, bodyWrites, hdr, bufstr, H:net/url.URL.Host, H:net/url.URL.Scheme, A:Int, A:Iface
+//@ modifies $db, authed, cleared, typeUnknown, lacksId, lastBlocked, reqMissing, newId, wrote, libWrote, status, sentHdr, bodyWrites, hdr, bufstr, H:net/url.URL.Host, H:net/url.URL.Scheme, A:Int, A:Iface
 
 //@ func (*pub.baseActor).GetInbox
+//@ params b, c, w, r
 //@ [C11] requires b != nil && b.delegate != nil && b.clock != nil && w != nil && r != nil
 //@ [C09] requires unlocked: held == emp
 //@ [C09] ensures unlocked: held == emp
@@ -138,9 +143,17 @@ package pub
 //@ [C10] ensures error_unwritten: result0 && result1 != nil ==> libWrote == 0
 //@ [C10] ensures one_status: result0 && result1 == nil ==> wrote == 1
 //@ [C10] ensures status_200: result0 && result1 == nil && authed ==> status == 200
-//@ modifies $db, authed, wrote, libWrote, status, bodyWrites, hdr, bufstr
+//@ modifies $db, authed, wrote, libWrote, status, sentHdr, bodyWrites, hdr, bufstr, nowTick, lastBody, servedValue, delegateValue, servedJSON
+//@ [C20] at call pub.DelegateActor.GetInbox#1: ghost delegateValue = $res0
+//@ [C20] at call streams.Serialize#1: ghost servedValue = $arg0
+//@ [C20] at call encoding/json.Marshal#1: assert marshals_the_serialisation: $arg0.pl == m
+//@ [C20] at call encoding/json.Marshal#1: ghost servedJSON = jsonOf($arg0)
+//@ [C20] at call net/http.ResponseWriter.Write#1: assert writes_the_hashed_bytes: bytesof($arg1) == servedJSON
+//@ [C20] ensures serves_delegate_value: result0 && result1 == nil && authed ==> servedValue == delegateValue && lastBody == servedJSON && status == 200
+//@ [C20] ensures headers: result0 && result1 == nil && authed ==> sentHdr["Content-Type"] == "application/ld+json; profile=\"https://www.w3.org/ns/activitystreams\"" && sentHdr["Digest"] == "SHA-256=" + b64(arrbytes(sha256arr(lastBody), 32)) && sentHdr["Date"] == timeFormat(utcOf(clockAt(nowTick)), "Mon, 02 Jan 2006 15:04:05") + " GMT"
 
 //@ func (*pub.baseActor).GetOutbox
+//@ params b, c, w, r
 //@ [C11] requires b != nil && b.delegate != nil && b.clock != nil && w != nil && r != nil
 //@ [C09] requires unlocked: held == emp
 //@ [C09] ensures unlocked: held == emp
@@ -154,9 +167,17 @@ package pub
 //@ [C10] ensures error_unwritten: result0 && result1 != nil ==> libWrote == 0
 //@ [C10] ensures one_status: result0 && result1 == nil ==> wrote == 1
 //@ [C10] ensures status_200: result0 && result1 == nil && authed ==> status == 200
-//@ modifies $db, authed, wrote, libWrote, status, bodyWrites, hdr, bufstr
+//@ modifies $db, authed, wrote, libWrote, status, sentHdr, bodyWrites, hdr, bufstr, nowTick, lastBody, servedValue, delegateValue, servedJSON
+//@ [C20] at call pub.DelegateActor.GetOutbox#1: ghost delegateValue = $res0
+//@ [C20] at call streams.Serialize#1: ghost servedValue = $arg0
+//@ [C20] at call encoding/json.Marshal#1: assert marshals_the_serialisation: $arg0.pl == m
+//@ [C20] at call encoding/json.Marshal#1: ghost servedJSON = jsonOf($arg0)
+//@ [C20] at call net/http.ResponseWriter.Write#1: assert writes_the_hashed_bytes: bytesof($arg1) == servedJSON
+//@ [C20] ensures serves_delegate_value: result0 && result1 == nil && authed ==> servedValue == delegateValue && lastBody == servedJSON && status == 200
+//@ [C20] ensures headers: result0 && result1 == nil && authed ==> sentHdr["Content-Type"] == "application/ld+json; profile=\"https://www.w3.org/ns/activitystreams\"" && sentHdr["Digest"] == "SHA-256=" + b64(arrbytes(sha256arr(lastBody), 32)) && sentHdr["Date"] == timeFormat(utcOf(clockAt(nowTick)), "Mon, 02 Jan 2006 15:04:05") + " GMT"
 
 //@ func (*pub.baseActor).deliver
+//@ params b, c, outbox, asValue, m
 //@ [C11] requires b != nil && b.delegate != nil && outbox != nil && asValue != nil
 //@ [C09] requires unlocked: held == emp
 //@ [C09] ensures unlocked: held == emp
@@ -169,6 +190,7 @@ package pub
 //@ [C11] at call pub.DelegateActor.Deliver#1: assume!post id_stable: activity.GetJSONLDId() == old(activity.GetJSONLDId()) && activity.GetJSONLDId().Get() == old(activity.GetJSONLDId().Get())
 
 //@ func (*pub.baseActorFederating).Send
+//@ params b, c, outbox, t
 //@ [C11] requires b != nil && b.baseActor.delegate != nil && outbox != nil && t != nil
 //@ [C09] requires unlocked: held == emp
 //@ [C09] ensures unlocked: held == emp
@@ -179,6 +201,7 @@ package pub
 
 // ---------------------------------------------------------------- side_effect_actor.go
 //@ func (*pub.sideEffectActor).AuthenticatePostInbox
+//@ params a, c, w, r
 //@ [C11] requires a != nil && a.s2s != nil
 //@ modifies authed, wrote, appCalls
 //@ ensures appCalls == old(appCalls) + 1
@@ -188,6 +211,7 @@ package pub
 //@ ensures err == nil && authenticated ==> wrote == old(wrote)
 
 //@ func (*pub.sideEffectActor).AuthenticateGetInbox
+//@ params a, c, w, r
 //@ [C11] requires a != nil && a.common != nil
 //@ modifies authed, wrote, appCalls
 //@ ensures appCalls == old(appCalls) + 1
@@ -197,6 +221,7 @@ package pub
 //@ ensures err == nil && authenticated ==> wrote == old(wrote)
 
 //@ func (*pub.sideEffectActor).AuthenticatePostOutbox
+//@ params a, c, w, r
 //@ [C11] requires a != nil && a.c2s != nil
 //@ modifies authed, wrote, appCalls
 //@ ensures appCalls == old(appCalls) + 1
@@ -206,6 +231,7 @@ package pub
 //@ ensures err == nil && authenticated ==> wrote == old(wrote)
 
 //@ func (*pub.sideEffectActor).AuthenticateGetOutbox
+//@ params a, c, w, r
 //@ [C11] requires a != nil && a.common != nil
 //@ modifies authed, wrote, appCalls
 //@ ensures appCalls == old(appCalls) + 1
@@ -215,16 +241,19 @@ package pub
 //@ ensures err == nil && authenticated ==> wrote == old(wrote)
 
 //@ func (*pub.sideEffectActor).PostInboxRequestBodyHook
+//@ params a, c, r, activity
 //@ [C11] requires a != nil && a.s2s != nil
 //@ modifies appCalls
 //@ ensures appCalls == old(appCalls) + 1
 
 //@ func (*pub.sideEffectActor).PostOutboxRequestBodyHook
+//@ params a, c, r, data
 //@ [C11] requires a != nil && a.c2s != nil
 //@ modifies appCalls
 //@ ensures appCalls == old(appCalls) + 1
 
 //@ func (*pub.sideEffectActor).GetOutbox
+//@ params a, c, r
 //@ [C11] requires a != nil && a.common != nil
 //@ [C07] requires authed: authed
 //@ modifies eff, appCalls
@@ -232,6 +261,7 @@ package pub
 //@ ensures result1 == nil ==> result0 != nil
 
 //@ func (*pub.sideEffectActor).GetInbox
+//@ params a, c, r
 //@ [C11] requires a != nil && a.s2s != nil
 //@ [C07] requires authed: authed
 //@ modifies eff, appCalls
@@ -239,6 +269,7 @@ package pub
 //@ ensures result1 == nil ==> result0 != nil
 
 //@ func (*pub.sideEffectActor).AuthorizePostInbox
+//@ params a, c, w, activity
 //@ [C11] requires a != nil && a.s2s != nil && w != nil && activity != nil
 //@ [C07] requires authed: authed && !cleared
 //@ [C07] ensures cleared_iff_authorized: cleared == (authorized && err == nil)
@@ -247,7 +278,7 @@ package pub
 //@ [C10] ensures authorized_unwritten: authorized ==> wrote == 0 && libWrote == 0 && err == nil
 //@ [C10] ensures error_unwritten: err != nil ==> wrote == 0 && libWrote == 0 && !authorized
 //@ [C10] ensures blocked_403: !authorized && err == nil ==> wrote == 1 && libWrote == 1 && status == 403 && bodyWrites == 0
-//@ modifies cleared, lastBlocked, appCalls, wrote, libWrote, status, A:Int, A:Iface
+//@ modifies cleared, lastBlocked, appCalls, wrote, libWrote, status, sentHdr, sentHdr, A:Int, A:Iface
 //@ [C10] requires not_blocked_yet: !lastBlocked
 //@ [C10] ensures blocked_flag: lastBlocked == (!authorized && err == nil)
 //@ loop 1 [C11] invariant idx: 0 <= i
@@ -256,6 +287,7 @@ package pub
 //@ [C11] ensures actor_present: authorized ==> activity.GetActivityStreamsActor() != nil
 
 //@ func (*pub.sideEffectActor).PostInbox
+//@ params a, c, inboxIRI, activity
 //@ [C11] requires a != nil && a.db != nil && a.s2s != nil && a.common != nil && inboxIRI != nil && activity != nil
 //@ [C09] requires unlocked: held == emp
 //@ [C09] ensures unlocked: held == emp
@@ -269,6 +301,7 @@ package pub
 //@ [C11] at call (streams.TypeResolver).Resolve#1: assume!post id_stable: activity.GetJSONLDId() == old(activity.GetJSONLDId())
 
 //@ func (*pub.sideEffectActor).InboxForwarding
+//@ params a, c, inboxIRI, activity
 //@ [C11] requires a != nil && a.db != nil && a.s2s != nil && a.common != nil && inboxIRI != nil && activity != nil
 //@ [C09] requires unlocked: held == emp
 //@ [C09] ensures unlocked: held == emp
@@ -285,6 +318,7 @@ package pub
 //@ [C11] requires has_id: activity.GetJSONLDId() != nil
 
 //@ func (*pub.sideEffectActor).PostOutbox
+//@ params a, c, activity, outboxIRI, rawJSON
 //@ [C11] requires a != nil && a.db != nil && a.common != nil && outboxIRI != nil && activity != nil
 //@ [C09] requires unlocked: held == emp
 //@ [C09] ensures unlocked: held == emp
@@ -297,6 +331,7 @@ package pub
 //@ [C11] at call (streams.TypeResolver).Resolve#1: assume!post id_stable: activity.GetJSONLDId() == old(activity.GetJSONLDId())
 
 //@ func (*pub.sideEffectActor).AddNewIDs
+//@ params a, c, activity
 //@ [C11] requires a != nil && a.db != nil && activity != nil
 //@ [C07] requires authed: authed
 //@ [C09] ensures unchanged: held == old(held)
@@ -306,6 +341,7 @@ package pub
 //@ loop 1 [C11] invariant id_set: activity.GetJSONLDId() != nil && activity.GetJSONLDId().Get() != nil
 
 //@ func (*pub.sideEffectActor).Deliver
+//@ params a, c, outboxIRI, activity
 //@ [C11] requires a != nil && a.db != nil && a.common != nil && a.s2s != nil && outboxIRI != nil && activity != nil
 //@ [C09] requires unlocked: held == emp
 //@ [C09] ensures unlocked: held == emp
@@ -315,6 +351,7 @@ package pub
 //@ modifies $db, A:Int, A:Iface
 
 //@ func (*pub.sideEffectActor).WrapInCreate
+//@ params a, c, obj, outboxIRI
 //@ [C11] requires a != nil && a.db != nil && outboxIRI != nil && obj != nil
 //@ [C09] requires unlocked: held == emp
 //@ [C09] ensures unlocked: held == emp
@@ -324,11 +361,13 @@ package pub
 //@ modifies $db
 
 //@ func (*pub.sideEffectActor).deliverToRecipients
+//@ params a, c, boxIRI, activity, recipients
 //@ [C11] requires a != nil && a.common != nil && activity != nil
 //@ [C07] requires authed: authed
 //@ modifies eff, appCalls, nDeliver
 
 //@ func (*pub.sideEffectActor).addToOutbox
+//@ params a, c, outboxIRI, activity
 //@ [C11] requires a != nil && a.db != nil && outboxIRI != nil && activity != nil
 //@ [C09] requires unlocked: held == emp
 //@ [C09] ensures unlocked: held == emp
@@ -339,6 +378,7 @@ package pub
 //@ [C11] requires has_id: activity.GetJSONLDId() != nil
 
 //@ func (*pub.sideEffectActor).addToInboxIfNew
+//@ params a, c, inboxIRI, activity
 //@ [C11] requires a != nil && a.db != nil && inboxIRI != nil && activity != nil
 //@ [C09] requires unlocked: held == emp
 //@ [C09] ensures unlocked: held == emp
@@ -351,6 +391,7 @@ package pub
 //@ [C11] ensures slots_kept: activity.GetJSONLDId() == old(activity.GetJSONLDId()) && activity.GetActivityStreamsActor() == old(activity.GetActivityStreamsActor())
 
 //@ func (*pub.sideEffectActor).hasInboxForwardingValues
+//@ params a, c, inboxIRI, val, maxDepth, currDepth
 //@ [C11] requires a != nil && a.db != nil && a.common != nil && val != nil
 //@ [C09] requires unlocked: held == emp
 //@ [C09] ensures unlocked: held == emp
@@ -370,6 +411,7 @@ package pub
 //@ [C11] decreases maxDepth - currDepth
 
 //@ func (*pub.sideEffectActor).prepare
+//@ params a, c, outboxIRI, activity
 //@ [C11] requires a != nil && a.db != nil && a.common != nil && a.s2s != nil && outboxIRI != nil && activity != nil
 //@ [C09] requires unlocked: held == emp
 //@ [C09] ensures unlocked: held == emp
@@ -381,6 +423,7 @@ package pub
 //@ loop 6 [C08] invariant unlocked: held == emp
 
 //@ func (*pub.sideEffectActor).resolveActors
+//@ params a, c, t, r, depth, maxDepth
 //@ [C11] requires a != nil && t != nil
 //@ [C07] requires authed: authed
 //@ modifies eff, appCalls, A:Int, A:Iface
@@ -388,12 +431,14 @@ package pub
 //@ [C11] decreases maxDepth - depth
 
 //@ func (*pub.sideEffectActor).dereferenceForResolvingInboxes
+//@ params a, c, t, actorIRI
 //@ [C11] requires a != nil && t != nil
 //@ [C07] requires authed: authed
 //@ modifies eff, appCalls, A:Int, A:Iface
 
 // ---------------------------------------------------------------- federating_wrapped_callbacks.go
 //@ func (pub.FederatingWrappedCallbacks).create
+//@ params w, c, a
 //@ [C11] requires w.db != nil && w.inboxIRI != nil && a != nil && w.newTransport != nil && w.addNewIds != nil && w.deliver != nil
 //@ [C09] requires unlocked: held == emp
 //@ [C09] ensures unlocked: held == emp
@@ -407,6 +452,7 @@ package pub
 //@ [C11] requires has_actor: a.GetActivityStreamsActor() != nil
 
 //@ func (pub.FederatingWrappedCallbacks).create$1
+//@ params iter
 //@ [C11] requires w.db != nil && w.inboxIRI != nil && iter != nil && w.newTransport != nil
 //@ [C09] requires unlocked: held == emp
 //@ [C09] ensures unlocked: held == emp
@@ -416,6 +462,7 @@ package pub
 //@ modifies $dbonly
 
 //@ func (pub.FederatingWrappedCallbacks).update
+//@ params w, c, a
 //@ [C11] requires w.db != nil && w.inboxIRI != nil && a != nil && w.newTransport != nil && w.addNewIds != nil && w.deliver != nil
 //@ [C09] requires unlocked: held == emp
 //@ [C09] ensures unlocked: held == emp
@@ -429,6 +476,7 @@ package pub
 //@ [C11] requires has_actor: a.GetActivityStreamsActor() != nil
 
 //@ func (pub.FederatingWrappedCallbacks).update$1
+//@ params iter
 //@ [C11] requires w.db != nil && iter != nil
 //@ [C09] requires unlocked: held == emp
 //@ [C09] ensures unlocked: held == emp
@@ -438,6 +486,7 @@ package pub
 //@ modifies $dbonly
 
 //@ func (pub.FederatingWrappedCallbacks).deleteFn
+//@ params w, c, a
 //@ [C11] requires w.db != nil && w.inboxIRI != nil && a != nil && w.newTransport != nil && w.addNewIds != nil && w.deliver != nil
 //@ [C09] requires unlocked: held == emp
 //@ [C09] ensures unlocked: held == emp
@@ -451,6 +500,7 @@ package pub
 //@ [C11] requires has_actor: a.GetActivityStreamsActor() != nil
 
 //@ func (pub.FederatingWrappedCallbacks).deleteFn$1
+//@ params iter
 //@ [C11] requires w.db != nil && iter != nil
 //@ [C09] requires unlocked: held == emp
 //@ [C09] ensures unlocked: held == emp
@@ -460,6 +510,7 @@ package pub
 //@ modifies $dbonly
 
 //@ func (pub.FederatingWrappedCallbacks).follow
+//@ params w, c, a
 //@ [C11] requires w.db != nil && w.inboxIRI != nil && a != nil && w.newTransport != nil && w.addNewIds != nil && w.deliver != nil
 //@ [C09] requires unlocked: held == emp
 //@ [C09] ensures unlocked: held == emp
@@ -472,6 +523,7 @@ package pub
 //@ [C11] requires has_actor: a.GetActivityStreamsActor() != nil
 
 //@ func (pub.FederatingWrappedCallbacks).accept
+//@ params w, c, a
 //@ [C11] requires w.db != nil && w.inboxIRI != nil && a != nil && w.newTransport != nil && w.addNewIds != nil && w.deliver != nil
 //@ [C09] requires unlocked: held == emp
 //@ [C09] ensures unlocked: held == emp
@@ -497,6 +549,7 @@ package pub
 //@ modifies $db
 
 //@ func (pub.FederatingWrappedCallbacks).reject
+//@ params w, c, a
 //@ [C11] requires w.db != nil && w.inboxIRI != nil && a != nil && w.newTransport != nil && w.addNewIds != nil && w.deliver != nil
 //@ [C09] requires unlocked: held == emp
 //@ [C09] ensures unlocked: held == emp
@@ -507,6 +560,7 @@ package pub
 //@ [C11] requires has_actor: a.GetActivityStreamsActor() != nil
 
 //@ func (pub.FederatingWrappedCallbacks).add
+//@ params w, c, a
 //@ [C11] requires w.db != nil && w.inboxIRI != nil && a != nil && w.newTransport != nil && w.addNewIds != nil && w.deliver != nil
 //@ [C09] requires unlocked: held == emp
 //@ [C09] ensures unlocked: held == emp
@@ -519,6 +573,7 @@ package pub
 //@ [C11] requires has_actor: a.GetActivityStreamsActor() != nil
 
 //@ func (pub.FederatingWrappedCallbacks).remove
+//@ params w, c, a
 //@ [C11] requires w.db != nil && w.inboxIRI != nil && a != nil && w.newTransport != nil && w.addNewIds != nil && w.deliver != nil
 //@ [C09] requires unlocked: held == emp
 //@ [C09] ensures unlocked: held == emp
@@ -531,6 +586,7 @@ package pub
 //@ [C11] requires has_actor: a.GetActivityStreamsActor() != nil
 
 //@ func (pub.FederatingWrappedCallbacks).like
+//@ params w, c, a
 //@ [C11] requires w.db != nil && w.inboxIRI != nil && a != nil && w.newTransport != nil && w.addNewIds != nil && w.deliver != nil
 //@ [C09] requires unlocked: held == emp
 //@ [C09] ensures unlocked: held == emp
@@ -544,6 +600,7 @@ package pub
 //@ [C11] requires has_actor: a.GetActivityStreamsActor() != nil
 
 //@ func (pub.FederatingWrappedCallbacks).like$1
+//@ params iter
 //@ [C11] requires w.db != nil && iter != nil && id != nil
 //@ [C09] requires unlocked: held == emp
 //@ [C09] ensures unlocked: held == emp
@@ -554,6 +611,7 @@ package pub
 //@ modifies $db
 
 //@ func (pub.FederatingWrappedCallbacks).announce
+//@ params w, c, a
 //@ [C11] requires w.db != nil && w.inboxIRI != nil && a != nil && w.newTransport != nil && w.addNewIds != nil && w.deliver != nil
 //@ [C09] requires unlocked: held == emp
 //@ [C09] ensures unlocked: held == emp
@@ -566,6 +624,7 @@ package pub
 //@ [C11] requires has_actor: a.GetActivityStreamsActor() != nil
 
 //@ func (pub.FederatingWrappedCallbacks).announce$1
+//@ params iter
 //@ [C11] requires w.db != nil && iter != nil && id != nil
 //@ [C09] requires unlocked: held == emp
 //@ [C09] ensures unlocked: held == emp
@@ -576,6 +635,7 @@ package pub
 //@ modifies $db
 
 //@ func (pub.FederatingWrappedCallbacks).undo
+//@ params w, c, a
 //@ [C11] requires w.db != nil && w.inboxIRI != nil && a != nil && w.newTransport != nil && w.addNewIds != nil && w.deliver != nil
 //@ [C09] requires unlocked: held == emp
 //@ [C09] ensures unlocked: held == emp
@@ -587,6 +647,7 @@ package pub
 //@ [C11] requires has_actor: a.GetActivityStreamsActor() != nil
 
 //@ func (pub.FederatingWrappedCallbacks).block
+//@ params w, c, a
 //@ [C11] requires w.db != nil && w.inboxIRI != nil && a != nil && w.newTransport != nil && w.addNewIds != nil && w.deliver != nil
 //@ [C09] requires unlocked: held == emp
 //@ [C09] ensures unlocked: held == emp
@@ -598,10 +659,12 @@ package pub
 //@ [C11] requires has_actor: a.GetActivityStreamsActor() != nil
 
 //@ func (pub.FederatingWrappedCallbacks).callbacks
+//@ params w, fns
 //@ modifies A:Int, A:Iface
 
 // ---------------------------------------------------------------- social_wrapped_callbacks.go
 //@ func (pub.SocialWrappedCallbacks).create
+//@ params w, c, a
 //@ [C11] requires w.db != nil && w.outboxIRI != nil && w.undeliverable != nil && a != nil && w.newTransport != nil && w.clock != nil
 //@ [C09] requires unlocked: held == emp
 //@ [C09] ensures unlocked: held == emp
@@ -615,6 +678,7 @@ package pub
 //@ skip C11 panic-freedom of the attributedTo normalisation needs quantified invariants over a slice of maps and over the objects' attributedTo slots; not proved (bounded stand-in only)
 
 //@ func (pub.SocialWrappedCallbacks).create$1
+//@ params i
 //@ [C11] requires w.db != nil && op != nil
 //@ [C09] requires unlocked: held == emp
 //@ [C09] ensures unlocked: held == emp
@@ -625,6 +689,7 @@ package pub
 //@ skip C11 part of the social Create normalisation (objects are embedded values after AddNewIDs; carrying that fact needs a quantified precondition); not proved
 
 //@ func (pub.SocialWrappedCallbacks).update
+//@ params w, c, a
 //@ [C11] requires w.db != nil && w.outboxIRI != nil && w.undeliverable != nil && a != nil && w.newTransport != nil && w.clock != nil
 //@ [C09] requires unlocked: held == emp
 //@ [C09] ensures unlocked: held == emp
@@ -638,6 +703,7 @@ package pub
 //@ loop 1 [C11] invariant collected: len(objIds) == (iter == nil ? op.Len() : ipos(iter)) && (iter != nil ==> ilen(iter) == op.Len())
 
 //@ func (pub.SocialWrappedCallbacks).update$1
+//@ params idx, loopId
 //@ [C11] requires w.db != nil && op != nil && loopId != nil
 //@ [C09] requires unlocked: held == emp
 //@ [C09] ensures unlocked: held == emp
@@ -648,6 +714,7 @@ package pub
 //@ [C11] requires in_range: 0 <= idx && idx < op.Len()
 
 //@ func (pub.SocialWrappedCallbacks).deleteFn
+//@ params w, c, a
 //@ [C11] requires w.db != nil && w.outboxIRI != nil && w.undeliverable != nil && a != nil && w.newTransport != nil && w.clock != nil
 //@ [C09] requires unlocked: held == emp
 //@ [C09] ensures unlocked: held == emp
@@ -660,6 +727,7 @@ package pub
 //@ [C10] ensures object_required: old(a.GetActivityStreamsObject() == nil || a.GetActivityStreamsObject().Len() == 0) ==> result == pub.ErrObjectRequired && eff == old(eff)
 
 //@ func (pub.SocialWrappedCallbacks).deleteFn$1
+//@ params idx, loopId
 //@ [C11] requires w.db != nil && w.clock != nil && loopId != nil
 //@ [C09] requires unlocked: held == emp
 //@ [C09] ensures unlocked: held == emp
@@ -669,6 +737,7 @@ package pub
 //@ modifies $dbonly, ASH, ASHP, props, idval
 
 //@ func (pub.SocialWrappedCallbacks).follow
+//@ params w, c, a
 //@ [C11] requires w.db != nil && w.outboxIRI != nil && w.undeliverable != nil && a != nil && w.newTransport != nil && w.clock != nil
 //@ [C09] requires unlocked: held == emp
 //@ [C09] ensures unlocked: held == emp
@@ -679,6 +748,7 @@ package pub
 //@ [C10] ensures object_required: old(a.GetActivityStreamsObject() == nil || a.GetActivityStreamsObject().Len() == 0) ==> result == pub.ErrObjectRequired && eff == old(eff)
 
 //@ func (pub.SocialWrappedCallbacks).add
+//@ params w, c, a
 //@ [C11] requires w.db != nil && w.outboxIRI != nil && w.undeliverable != nil && a != nil && w.newTransport != nil && w.clock != nil
 //@ [C09] requires unlocked: held == emp
 //@ [C09] ensures unlocked: held == emp
@@ -690,6 +760,7 @@ package pub
 //@ [C10] ensures target_required: old(!(a.GetActivityStreamsObject() == nil || a.GetActivityStreamsObject().Len() == 0) && (a.GetActivityStreamsTarget() == nil || a.GetActivityStreamsTarget().Len() == 0)) ==> result == pub.ErrTargetRequired && eff == old(eff)
 
 //@ func (pub.SocialWrappedCallbacks).remove
+//@ params w, c, a
 //@ [C11] requires w.db != nil && w.outboxIRI != nil && w.undeliverable != nil && a != nil && w.newTransport != nil && w.clock != nil
 //@ [C09] requires unlocked: held == emp
 //@ [C09] ensures unlocked: held == emp
@@ -701,6 +772,7 @@ package pub
 //@ [C10] ensures target_required: old(!(a.GetActivityStreamsObject() == nil || a.GetActivityStreamsObject().Len() == 0) && (a.GetActivityStreamsTarget() == nil || a.GetActivityStreamsTarget().Len() == 0)) ==> result == pub.ErrTargetRequired && eff == old(eff)
 
 //@ func (pub.SocialWrappedCallbacks).like
+//@ params w, c, a
 //@ [C11] requires w.db != nil && w.outboxIRI != nil && w.undeliverable != nil && a != nil && w.newTransport != nil && w.clock != nil
 //@ [C09] requires unlocked: held == emp
 //@ [C09] ensures unlocked: held == emp
@@ -714,6 +786,7 @@ package pub
 //@ [C10] ensures object_required: old(a.GetActivityStreamsObject() == nil || a.GetActivityStreamsObject().Len() == 0) ==> result == pub.ErrObjectRequired && eff == old(eff)
 
 //@ func (pub.SocialWrappedCallbacks).undo
+//@ params w, c, a
 //@ [C11] requires w.db != nil && w.outboxIRI != nil && w.undeliverable != nil && a != nil && w.newTransport != nil && w.clock != nil
 //@ [C09] requires unlocked: held == emp
 //@ [C09] ensures unlocked: held == emp
@@ -724,6 +797,7 @@ package pub
 //@ [C10] ensures object_required: old(a.GetActivityStreamsObject() == nil || a.GetActivityStreamsObject().Len() == 0) ==> result == pub.ErrObjectRequired && eff == old(eff)
 
 //@ func (pub.SocialWrappedCallbacks).block
+//@ params w, c, a
 //@ [C11] requires w.db != nil && w.outboxIRI != nil && w.undeliverable != nil && a != nil && w.newTransport != nil && w.clock != nil
 //@ [C09] requires unlocked: held == emp
 //@ [C09] ensures unlocked: held == emp
@@ -734,10 +808,12 @@ package pub
 //@ [C10] ensures object_required: old(a.GetActivityStreamsObject() == nil || a.GetActivityStreamsObject().Len() == 0) ==> result == pub.ErrObjectRequired && eff == old(eff)
 
 //@ func (pub.SocialWrappedCallbacks).callbacks
+//@ params w, fns
 //@ modifies A:Int, A:Iface
 
 // ---------------------------------------------------------------- util.go, handlers.go
 //@ func pub.add
+//@ params c, op, target, db
 //@ [C11] requires op != nil && target != nil && db != nil
 //@ [C09] requires unlocked: held == emp
 //@ [C09] ensures unlocked: held == emp
@@ -749,6 +825,7 @@ package pub
 //@ loop 3 [C08] invariant unlocked: held == emp
 
 //@ func pub.add$1
+//@ params t
 //@ [C11] requires db != nil && t != nil
 //@ [C09] requires unlocked: held == emp
 //@ [C09] ensures unlocked: held == emp
@@ -763,6 +840,7 @@ package pub
 //@ loop 2 [C08] invariant holds_t: held == emp[str(t) := true] && srcKey[tp] == str(t) && srcEpoch[tp] == epoch[str(t)]
 
 //@ func pub.remove
+//@ params c, op, target, db
 //@ [C11] requires op != nil && target != nil && db != nil
 //@ [C09] requires unlocked: held == emp
 //@ [C09] ensures unlocked: held == emp
@@ -774,6 +852,7 @@ package pub
 //@ loop 3 [C08] invariant unlocked: held == emp
 
 //@ func pub.remove$1
+//@ params t
 //@ [C11] requires db != nil && t != nil
 //@ [C09] requires unlocked: held == emp
 //@ [C09] ensures unlocked: held == emp
@@ -792,28 +871,34 @@ package pub
 //@ loop 2 [C11] decreases iProp.Len() - i
 
 //@ func pub.mustHaveActivityActorsMatchObjectActors
+//@ params c, actors, op, newTransport, boxIRI
 //@ [C11] requires newTransport != nil
 //@ [C07] requires authed: authed
 //@ modifies eff, appCalls
 //@ [C11] requires op != nil
 
 //@ func pub.ToId
+//@ params i
 //@ [C11] requires i != nil
 //@ [C11] ensures nonnil_id: result1 == nil ==> result0 != nil
 
 //@ func pub.GetId
+//@ params t
 //@ [C11] requires t != nil
 //@ [C11] ensures nonnil_id: result1 == nil ==> result0 != nil
 
 //@ func pub.getInboxForwardingValues
+//@ params o
 //@ [C11] requires o != nil
 //@ modifies A:Int, A:Iface
 
 //@ func pub.wrapInCreate
+//@ params ctx, o, actor
 //@ [C11] requires o != nil
 //@ modifies ASH, ASHP, props
 
 //@ func pub.filterURLs
+//@ params u, fn
 //@ modifies A:Int
 //@ [C11] requires fn != nil
 //@ loop 1 [C11] invariant idx: 0 <= i
@@ -823,69 +908,90 @@ package pub
 //@ pure
 
 //@ func pub.getInboxes
+//@ params t
 //@ modifies A:Int, A:Iface
 
 //@ func pub.getInbox
+//@ params t
 //@ [C11] ensures nonnil_id: err == nil ==> u != nil
 
 //@ func pub.dedupeIRIs
+//@ params recipients, ignored
 //@ modifies A:Int, A:Iface
 
 //@ func pub.removeOne
+//@ params entries, entry
 //@ [C11] requires entry != nil
 //@ modifies A:Int, A:Iface
 
 //@ func pub.stripHiddenRecipients
+//@ params activity
 //@ [C11] requires activity != nil
 //@ modifies ASH, ASHP, props
 
 //@ func pub.mustHaveActivityOriginMatchObjects
+//@ params a
 //@ [C11] requires a != nil
 
 //@ func pub.normalizeRecipients
+//@ params a
 //@ [C11] requires a != nil
 //@ modifies ASH, ASHP, props, A:Int, A:Iface, MD:String:Int, MV:String:Int
 //@ skip C11 panic-freedom and termination of normalizeRecipients need quantified invariants over five slices of maps and type-distinctness of property values; not proved (bounded stand-in only)
 
 //@ func pub.toTombstone
+//@ params obj, id, now
 //@ [C11] requires obj != nil
 //@ modifies ASH, ASHP, props, idval
 
 //@ func pub.clearSensitiveFields
+//@ params obj
 //@ modifies ASH, ASHP, props
 //@ [C11] decreases tdepth(obj)
 //@ [C11] at call pub.clearSensitiveFields#1: assume! finite_tree: 0 <= tdepth($arg0) && tdepth($arg0) < tdepth(obj)
 
 //@ func pub.dedupeOrderedItems
+//@ params oc
 //@ [C11] requires oc != nil
 //@ modifies ASH, ASHP, props
 //@ loop 1 [C11] invariant idx: 0 <= i
 //@ loop 1 [C11] decreases oi.Len() - i
 
 //@ func pub.requestId
+//@ params r, scheme
 //@ [C11] requires r != nil && r.URL != nil
 //@ ensures result != nil
 //@ modifies H:net/url.URL.Host, H:net/url.URL.Scheme
 
 //@ func pub.isActivityPubPost
+//@ params r
 //@ [C11] requires r != nil
 //@ ensures result == (r.Method == "POST" && isASMedia(hdr[r.Header]["Content-Type"]))
 
 //@ func pub.isActivityPubGet
+//@ params r
 //@ [C11] requires r != nil
 //@ ensures result == (r.Method == "GET" && isASMedia(hdr[r.Header]["Accept"]))
 
 //@ func pub.headerIsActivityPubMediaType
+//@ params header
 //@ ensures result == isASMedia(header)
 //@ trusted
 
 //@ func pub.addResponseHeaders
+//@ params h, c, responseContent
 //@ [C11] requires c != nil
-//@ modifies hdr, bufstr
+//@ modifies hdr, bufstr, nowTick
+//@ [C20] ensures content_type: hdr[h]["Content-Type"] == "application/ld+json; profile=\"https://www.w3.org/ns/activitystreams\""
+//@ [C20] ensures date_from_clock: nowTick == old(nowTick) + 1 && hdr[h]["Date"] == timeFormat(utcOf(clockAt(nowTick)), "Mon, 02 Jan 2006 15:04:05") + " GMT"
+//@ [C20] ensures digest_of_content: hdr[h]["Digest"] == "SHA-256=" + b64(arrbytes(sha256arr(bytesof(responseContent)), 32))
+//@ [C20] ensures other_maps_untouched: forall g Int :: {hdr[g]} g != h ==> hdr[g] == old(hdr[g])
 
 //@ func pub.IsPublic
+//@ params s
 
 //@ func pub.NewActivityStreamsHandlerScheme$1
+//@ params c, w, r
 //@ [C11] requires db != nil && clock != nil && w != nil && r != nil && r.URL != nil
 //@ [C09] requires unlocked: held == emp
 //@ [C09] ensures unlocked: held == emp
@@ -898,6 +1004,16 @@ package pub
 //@ [C10] ensures not_handled: !isASRequest ==> wrote == 0 && err == nil
 //@ [C10] ensures error_unwritten: isASRequest && err != nil ==> libWrote == 0
 //@ [C10] ensures one_status: isASRequest && err == nil ==> wrote == 1 && status == (tomb ? 410 : 200)
-//@ modifies $db, tomb, wrote, libWrote, status, bodyWrites, hdr, bufstr, H:net/url.URL.Host, H:net/url.URL.Scheme, A:Int, A:Iface
+//@ modifies $db, tomb, wrote, libWrote, status, sentHdr, bodyWrites, hdr, bufstr, nowTick, lastBody, servedValue, delegateValue, servedJSON, H:net/url.URL.Host, H:net/url.URL.Scheme, A:Int, A:Iface
 //@ [C10] at call streams.IsOrExtendsActivityStreamsTombstone#1: ghost tomb = $res0
 //@ [C10] ensures not_found: isASRequest && err == pub.ErrNotFound ==> wrote == 0
+
+//@ [C20] at call pub.Database.Get#1: ghost delegateValue = $res0
+//@ [C20] at call streams.Serialize#1: ghost servedValue = $arg0
+//@ [C20] at call encoding/json.Marshal#1: assert marshals_the_serialisation: $arg0.pl == m
+//@ [C20] at call encoding/json.Marshal#1: ghost servedJSON = jsonOf($arg0)
+//@ [C20] at call streams.IsOrExtendsActivityStreamsTombstone#1: ghost tomb = $res0
+//@ [C20] at call net/http.ResponseWriter.Write#1: assert writes_the_hashed_bytes: bytesof($arg1) == servedJSON
+//@ [C20] ensures serves_stored_value: isASRequest && err == nil ==> servedValue == delegateValue && lastBody == servedJSON && status == (tomb ? 410 : 200)
+//@ [C20] ensures headers: isASRequest && err == nil ==> sentHdr["Content-Type"] == "application/ld+json; profile=\"https://www.w3.org/ns/activitystreams\"" && sentHdr["Digest"] == "SHA-256=" + b64(arrbytes(sha256arr(lastBody), 32)) && sentHdr["Date"] == timeFormat(utcOf(clockAt(nowTick)), "Mon, 02 Jan 2006 15:04:05") + " GMT"
+//@ [C20] ensures not_found: isASRequest && delegateValue == nil && old(held == emp) ==> (err != nil) && bodyWrites == old(bodyWrites)
